@@ -145,3 +145,9 @@ impl Compiler {
                 && final(function).stack_size < 0x4000_0000,
     { unimplemented!() }
 }
+
+// a run-time guard that is ALLOWED to fire (the function then does not return): used where the assertion itself is the
+// mechanism that establishes the postcondition, so the contract is "on return the invariant holds"
+#[verifier::external_body]
+pub fn rt_guard() -> !
+{ panic!() }
